@@ -519,6 +519,9 @@ BACKEND_SCRATCH = {
 }
 
 
+SIZED_SCRATCH = {"lowrank_scratch"}
+
+
 def stateless_backend(F, R, rid="C17-K9"):
     """No value travels from one kernel call to the next through the backend object (shared with C02)."""
     from . import rel as Rl
@@ -557,6 +560,32 @@ def stateless_backend(F, R, rid="C17-K9"):
             if f in BACKEND_SCRATCH:
                 n_written += 1
                 R.ok(rid, key, site, "writes scratch field %s" % f)
+                if f in SIZED_SCRATCH:
+                    # the reason the scratch is harmless is that its *length* does not travel between calls either: a method that borrows it
+                    # sizes it itself, from its own arguments (a length left behind by another call silently truncates zips / panics matmul)
+                    sized = None
+                    for (bx, bi, st, how, pl) in ws:
+                        flds = [e for e in pl["p"] if isinstance(e, dict) and "f" in e]
+                        if how == "store" and flds and flds[-1].get("n") == f and pl["p"][-1] is flds[-1]:
+                            sized = ("whole-field store", bx, [st["rv"]["op"]] if st["rv"]["k"] == "use" else [])
+                    for bx in bodies:
+                        for bb, t in bx.calls():
+                            if t["callee"].get("name") in ("resize_with", "resize", "truncate", "resize_default") and t["args"] and \
+                                    f in bx.slice(t["args"][:1], control=False)["fields"]:
+                                sized = (t["callee"]["name"], bx, t["args"][1:2])
+                    only_store = all(how == "store" and pl["p"] and isinstance(pl["p"][-1], dict) and pl["p"][-1].get("n") == f for (_bx, _bi, _st, how, pl) in ws)
+                    k2 = "%s:%s:sized-here" % (b.path, f)
+                    if only_store:
+                        R.ok(rid, k2, site, "replaces %s as a whole and does not read it" % f)
+                    elif sized is None:
+                        R.bad(rid, k2, site, "borrows the scratch buffer %s without sizing it in the same call: its length is whatever the last call (for another operand) left "
+                              "behind - an iterator zip over it silently drops the trailing eigen-directions, a matmul panics" % f)
+                    else:
+                        sl = sized[1].slice(sized[2], control=False) if sized[2] else {"args": set(), "upvars": set(), "calls": set()}
+                        if sl["args"] or sl["upvars"]:
+                            R.ok(rid, k2, site, "%s sized in the same call (%s) from the call's own operands" % (f, sized[0]))
+                        else:
+                            R.bad(rid, k2, site, "%s is sized in this call (%s), but not from the call's operands" % (f, sized[0]))
                 continue
             # memo?
             why = None
